@@ -117,6 +117,16 @@ class LArr:
     def __repr__(self):
         return f"LArr(shape={self.shape})"
 
+    def __iter__(self):
+        # element-by-element traversal of an array whose length is symbolic would never end (or would pin the length):
+        # it is outside the model
+        if not self.shape or not _is_concrete(self.shape[0]):
+            raise Unsupported("iteration over a lazy array of symbolic length")
+        return (self[i] for i in range(builtins.int(self.shape[0])))
+
+    def __array__(self, dtype=None, copy=None):
+        raise Unsupported("conversion of a lazy array to a NumPy array")
+
     @staticmethod
     def from_array(a, tag=None):
         """concrete ndarray / SymArray -> LArr (symbolic indexing = uninterpreted lookup for large arrays)"""
